@@ -154,6 +154,7 @@ func init() {
 		partStepThrough(c, a, []string{"join", "switch", "leave", "delete", "compadd-vs-delete", "compadd-vs-leave", "action-vs-delete", "action-vs-leave"})
 		partStepPairs(c, a, [][2]string{{"leave", "join2"}, {"join", "leave2"}, {"join", "join2"}, {"delete", "join2"}})
 		partGated(c, a, []func(*sut.Proc) *e2.Result{e2.G6SameKeyActionWriters, e2.G5SameKeyComponentWriters, e2.G4ModuleStateRace}, 1)
+		partLagSenders(c, a)
 		return a.finish(c)
 	}
 	registry["C02"] = func(c *check.Ctx) int {
@@ -172,6 +173,7 @@ func init() {
 		partStepThrough(c, a, []string{"join", "leave", "delete"})
 		partStepPairs(c, a, [][2]string{{"leave", "join2"}, {"join", "leave2"}, {"leave", "leave2"}})
 		partLagging(c, a)
+		partLagSenders(c, a)
 		partRealBinaryIntegrity(c, a, false)
 		return a.finish(c)
 	}
